@@ -36,49 +36,95 @@ theorem delLink_mem (store : List Rule) (l x : Rule) (hd : store.Nodup) :
 theorem delLink_nodup (store : List Rule) (l : Rule) (hd : store.Nodup) : (delLink store l).Nodup :=
   hd.erase l
 
-/-- all rules have exactly `count` fields -/
-def Sized (count : Nat) (rs : List Rule) : Prop := ∀ r ∈ rs, r.length = count
+/-- every rule has at least as many fields as the role definition has `_` (shorter ones are refused, F27; longer ones
+    are truncated to their link) -/
+def Sized (count : Nat) (rs : List Rule) : Prop := ∀ r ∈ rs, count ≤ r.length
 
-theorem take_sized {count : Nat} {r : Rule} (h : r.length = count) : r.take count = r := by
-  rw [← h]; exact List.take_length
+/-- `x` is the link of one of the rules: the rule cut to the role definition's size -/
+def LinkOf (count : Nat) (rules : List Rule) (x : Rule) : Prop := ∃ r ∈ rules, r.take count = x
+
+theorem LinkOf.append {count : Nat} {a b : List Rule} {x : Rule} :
+    LinkOf count (a ++ b) x ↔ LinkOf count a x ∨ LinkOf count b x := by
+  unfold LinkOf
+  constructor
+  · rintro ⟨r, hr, he⟩
+    rcases List.mem_append.mp hr with h | h
+    · exact Or.inl ⟨r, h, he⟩
+    · exact Or.inr ⟨r, h, he⟩
+  · rintro (⟨r, hr, he⟩ | ⟨r, hr, he⟩)
+    · exact ⟨r, List.mem_append.mpr (Or.inl hr), he⟩
+    · exact ⟨r, List.mem_append.mpr (Or.inr hr), he⟩
+
+theorem LinkOf.congr {count : Nat} {a b : List Rule} (h : ∀ r, r ∈ a ↔ r ∈ b) (x : Rule) :
+    LinkOf count a x ↔ LinkOf count b x := by
+  unfold LinkOf
+  constructor <;> rintro ⟨r, hr, he⟩
+  · exact ⟨r, (h r).mp hr, he⟩
+  · exact ⟨r, (h r).mpr hr, he⟩
 
 theorem incLinks_add (count : Nat) (pol rs store : List Rule) (hs : Sized count rs) (hd : store.Nodup) :
-    ∃ res, incLinks count true pol store rs = .ok res ∧ res.Nodup ∧ ∀ x, x ∈ res ↔ x ∈ store ∨ x ∈ rs := by
+    ∃ res, incLinks count true pol store rs = .ok res ∧ res.Nodup ∧ ∀ x, x ∈ res ↔ x ∈ store ∨ LinkOf count rs x := by
   induction rs generalizing store with
-  | nil => exact ⟨store, rfl, hd, by simp⟩
+  | nil => exact ⟨store, rfl, hd, by simp [LinkOf]⟩
   | cons r rs ih =>
-    have hr : r.length = count := hs r (by simp)
-    obtain ⟨res, h1, h2, h3⟩ := ih (addLink store r) (fun x hx => hs x (by simp [hx])) (addLink_nodup store r hd)
+    have hr : ¬ r.length < count := by have := hs r (by simp); omega
+    obtain ⟨res, h1, h2, h3⟩ := ih (addLink store (r.take count)) (fun x hx => hs x (by simp [hx]))
+      (addLink_nodup store _ hd)
     refine ⟨res, ?_, h2, ?_⟩
-    · unfold incLinks; simp [hr, take_sized hr, h1]
-    · intro x; rw [h3, addLink_mem]; simp only [List.mem_cons]; grind
+    · unfold incLinks; simp only [hr, ↓reduceIte]; exact h1
+    · intro x
+      rw [h3, addLink_mem]
+      unfold LinkOf
+      simp only [List.mem_cons, exists_eq_or_imp]
+      grind
 
-/-- removal on well-sized rules that are no longer stored: no remaining rule shares a link, every link is deleted -/
+/-- incremental removal: `pol` holds the rules that remain, `rs` the removed ones; when the store held exactly the links
+    of both, it ends up holding exactly the links of the remaining rules (a link shared with a remaining rule stays) -/
 theorem incLinks_del (count : Nat) (pol rs store : List Rule) (hs : Sized count rs) (hd : store.Nodup)
-    (hp : Sized count pol) (hnot : ∀ r ∈ rs, r ∉ pol) :
-    ∃ res, incLinks count false pol store rs = .ok res ∧ res.Nodup ∧ ∀ x, x ∈ res ↔ x ∈ store ∧ x ∉ rs := by
+    (ha : ∀ o ∈ pol, o.take count ∈ store)
+    (hb : ∀ x ∈ store, LinkOf count pol x ∨ LinkOf count rs x) :
+    ∃ res, incLinks count false pol store rs = .ok res ∧ res.Nodup ∧ ∀ x, x ∈ res ↔ LinkOf count pol x := by
   induction rs generalizing store with
-  | nil => exact ⟨store, rfl, hd, by simp⟩
+  | nil =>
+    refine ⟨store, rfl, hd, fun x => ⟨fun hx => ?_, fun ⟨o, ho, he⟩ => he ▸ ha o ho⟩⟩
+    rcases hb x hx with h | ⟨r, hr, _⟩
+    · exact h
+    · simp at hr
   | cons r rs ih =>
-    have hr : r.length = count := hs r (by simp)
-    have hshare : pol.any (fun o => o.take count == r.take count) = false := by
-      apply List.any_eq_false.mpr
-      intro o ho hc
-      have : o.take count = r.take count := by simpa using hc
-      rw [take_sized (hp o ho), take_sized hr] at this
-      exact hnot r (by simp) (this ▸ ho)
-    obtain ⟨res, h1, h2, h3⟩ := ih (delLink store r) (fun x hx => hs x (by simp [hx])) (delLink_nodup store r hd)
-      (fun x hx => hnot x (by simp [hx]))
-    refine ⟨res, ?_, h2, ?_⟩
-    · unfold incLinks
-      have hlt : ¬ r.length < count := by omega
-      simp only [hlt, ↓reduceIte, Bool.false_eq_true, hshare]
-      rw [take_sized hr]; exact h1
-    · intro x; rw [h3, delLink_mem _ _ _ hd]; simp only [List.mem_cons]; grind
+    have hr : ¬ r.length < count := by have := hs r (by simp); omega
+    by_cases hshare : pol.any (fun o => o.take count == r.take count) = true
+    · -- the link is shared with a remaining rule: it stays
+      obtain ⟨o, ho, he⟩ := List.any_eq_true.mp hshare
+      have he' : o.take count = r.take count := by simpa using he
+      obtain ⟨res, h1, h2, h3⟩ := ih store (fun x hx => hs x (by simp [hx])) hd ha (fun x hx => by
+        rcases hb x hx with h | ⟨r', hr', hx'⟩
+        · exact Or.inl h
+        · rcases List.mem_cons.mp hr' with rfl | hr''
+          · exact Or.inl ⟨o, ho, he'.trans hx'⟩
+          · exact Or.inr ⟨r', hr'', hx'⟩)
+      refine ⟨res, ?_, h2, h3⟩
+      unfold incLinks; simp only [hr, ↓reduceIte, Bool.false_eq_true, hshare]; exact h1
+    · have hshare' : pol.any (fun o => o.take count == r.take count) = false := by simpa using hshare
+      obtain ⟨res, h1, h2, h3⟩ := ih (delLink store (r.take count)) (fun x hx => hs x (by simp [hx]))
+        (delLink_nodup store _ hd)
+        (fun o ho => by
+          rw [delLink_mem _ _ _ hd]
+          refine ⟨ha o ho, fun he => ?_⟩
+          have := List.any_eq_false.mp hshare' o ho
+          simp [he] at this)
+        (fun x hx => by
+          rw [delLink_mem _ _ _ hd] at hx
+          rcases hb x hx.1 with h | ⟨r', hr', hx'⟩
+          · exact Or.inl h
+          · rcases List.mem_cons.mp hr' with rfl | hr''
+            · exact absurd hx'.symm hx.2
+            · exact Or.inr ⟨r', hr'', hx'⟩)
+      refine ⟨res, ?_, h2, h3⟩
+      unfold incLinks; simp only [hr, ↓reduceIte, Bool.false_eq_true, hshare']; exact h1
 
-/-- building from scratch yields exactly the (well-sized) rules -/
+/-- building from scratch yields exactly the links of the rules -/
 theorem buildLinks_spec (count : Nat) (rules : List Rule) (hs : Sized count rules) :
-    ∃ res, buildLinks count rules = .ok res ∧ res.Nodup ∧ ∀ x, x ∈ res ↔ x ∈ rules := by
+    ∃ res, buildLinks count rules = .ok res ∧ res.Nodup ∧ ∀ x, x ∈ res ↔ LinkOf count rules x := by
   obtain ⟨res, h1, h2, h3⟩ := incLinks_add count [] rules [] hs List.nodup_nil
   exact ⟨res, h1, h2, by intro x; rw [h3]; simp⟩
 
@@ -89,7 +135,7 @@ structure CohSec (count : Nat) (links rules : List Rule) : Prop where
   sized : Sized count rules
   nodupL : links.Nodup
   nodupR : rules.Nodup
-  same : ∀ x, x ∈ links ↔ x ∈ rules
+  same : ∀ x, x ∈ links ↔ LinkOf count rules x
 
 /-- every role definition of the model is coherent and the permission rules are duplicate-free -/
 structure Coherent (cfg : Cfg) (s : St) : Prop where
@@ -105,7 +151,7 @@ theorem Coherent.sec {cfg : Cfg} {s : St} (h : Coherent cfg s) (sec : Sec) (hsec
   · exact h.g
   · exact h.g2
 
-/-- a well-formed policy: duplicate-free sections, grouping rules with as many fields as the role definition has `_` -/
+/-- a well-formed policy: duplicate-free sections, no grouping rule with fewer fields than the role definition has `_` -/
 structure PolOK (cfg : Cfg) (pol : Pol) : Prop where
   p : pol.p.Nodup
   g : pol.g.Nodup
@@ -113,12 +159,10 @@ structure PolOK (cfg : Cfg) (pol : Pol) : Prop where
   sg : Sized cfg.gCount pol.g
   sg2 : Sized cfg.g2Count pol.g2
 
-/-- admissible calls: grouping rules passed to adds are not LONGER than the role definition (shorter ones are refused by
-    the repaired code before anything is stored, F27), `auto_build_role_links` is not switched off,
+/-- admissible calls: `auto_build_role_links` is not switched off (grouping rules of ANY size may be passed to the
+    management calls: shorter ones are refused before anything is stored, F27; longer ones are truncated to links, F28),
     and what the adapter delivers on `load_policy` is a well-formed policy -/
 def OpOK (cfg : Cfg) (s : St) : Op → Prop
-  | .add sec r => sec ≠ .p → r.length ≤ cfg.count sec
-  | .addMany sec rs => sec ≠ .p → ∀ r ∈ rs, r.length ≤ cfg.count sec
   | .enableAutoBuild b => b = true
   | .loadPolicy _ => PolOK cfg s.store
   | _ => True
@@ -161,15 +205,20 @@ theorem coherent_update (cfg : Cfg) (s : St) (h : Coherent cfg s) (sec : Sec) (r
     have := hnew (by simp)
     exact ⟨by rw [hlinks, hpol]; exact h.g, by rw [hlinks, hpol]; exact this, by rw [hpol]; exact h.p, ha⟩
 
-/-- what `relink` does on a coherent state with well-sized rules -/
+/-- what `relink` does with well-sized rules.  Adding: the links of the rules join the store.  Removing (`rules` =
+    the removed rules, the section already holds the remaining ones): when the store held exactly the links of both, it
+    ends up with exactly the links of the remaining rules. -/
 theorem relink_spec (cfg : Cfg) (s : St) (sec : Sec) (add : Bool) (rules : List Rule)
     (hauto : s.autoBuild = true) (hd : sec ≠ .p → (s.links.get sec).Nodup)
     (hs : sec ≠ .p → Sized (cfg.count sec) rules)
-    (hrem : add = false → sec ≠ .p → Sized (cfg.count sec) (s.pol.get sec) ∧ ∀ r ∈ rules, r ∉ s.pol.get sec) :
+    (hrem : add = false → sec ≠ .p →
+      (∀ o ∈ s.pol.get sec, o.take (cfg.count sec) ∈ s.links.get sec) ∧
+      (∀ x ∈ s.links.get sec, LinkOf (cfg.count sec) (s.pol.get sec) x ∨ LinkOf (cfg.count sec) rules x)) :
     ∃ s2, relink cfg s sec add rules = .ok s2 ∧ s2.pol = s.pol ∧ s2.autoBuild = s.autoBuild ∧
       (sec = .p → s2.links = s.links) ∧
       (sec ≠ .p → ∃ l, s2.links = s.links.set sec l ∧ l.Nodup ∧
-        ∀ x, x ∈ l ↔ (if add then x ∈ s.links.get sec ∨ x ∈ rules else x ∈ s.links.get sec ∧ x ∉ rules)) := by
+        ∀ x, x ∈ l ↔ (if add then x ∈ s.links.get sec ∨ LinkOf (cfg.count sec) rules x
+                      else LinkOf (cfg.count sec) (s.pol.get sec) x)) := by
   unfold relink
   by_cases hsec : sec = .p
   · subst hsec; simp
@@ -205,15 +254,22 @@ theorem coherent_change (cfg : Cfg) (s : St) (h : Coherent cfg s) (sec : Sec) (l
   have hd : sec ≠ .p → ((persist cfg { s with pol := s.pol.set sec l } c w).links.get sec).Nodup := by
     intro hsec; rw [hp2]; exact (h.sec sec hsec).nodupL
   have hrem : add = false → sec ≠ .p →
-      Sized (cfg.count sec) ((persist cfg { s with pol := s.pol.set sec l } c w).pol.get sec) ∧
-      ∀ r ∈ rules, r ∉ (persist cfg { s with pol := s.pol.set sec l } c w).pol.get sec := by
+      (∀ o ∈ (persist cfg { s with pol := s.pol.set sec l } c w).pol.get sec,
+        o.take (cfg.count sec) ∈ (persist cfg { s with pol := s.pol.set sec l } c w).links.get sec) ∧
+      (∀ x ∈ (persist cfg { s with pol := s.pol.set sec l } c w).links.get sec,
+        LinkOf (cfg.count sec) ((persist cfg { s with pol := s.pol.set sec l } c w).pol.get sec) x ∨
+        LinkOf (cfg.count sec) rules x) := by
     intro hadd hsec
-    rw [hp1]
+    have hc := h.sec sec hsec
+    rw [hp1, hp2]
     simp only [set_get_same]
-    refine ⟨hsz hsec, fun r hr hin => ?_⟩
-    have := (hmem r).mp hin
-    simp only [hadd, Bool.false_eq_true, ↓reduceIte] at this
-    exact this.2 hr
+    have hold : ∀ x, x ∈ l ↔ x ∈ s.pol.get sec ∧ x ∉ rules := by
+      intro x; have := hmem x; simpa [hadd] using this
+    refine ⟨fun o ho => (hc.same _).mpr ⟨o, ((hold o).mp ho).1, rfl⟩, fun x hx => ?_⟩
+    obtain ⟨r, hr, he⟩ := (hc.same x).mp hx
+    by_cases hin : r ∈ rules
+    · exact Or.inr ⟨r, hin, he⟩
+    · exact Or.inl ⟨r, (hold r).mpr ⟨hr, hin⟩, he⟩
   obtain ⟨s2, h1, h2, h3, h4, h5⟩ := relink_spec cfg _ sec add rules hauto hd hs hrem
   refine ⟨s2, h1, ?_⟩
   by_cases hsec : sec = .p
@@ -225,13 +281,16 @@ theorem coherent_change (cfg : Cfg) (s : St) (h : Coherent cfg s) (sec : Sec) (l
     refine coherent_update cfg s h sec l lk (fun _ => ⟨hsz hsec, hlkd, hl, ?_⟩) (fun e => absurd e hsec) s2
       (by rw [h2, hp1]) (by simp [hsec, hlk, hp2]) (by rw [h3]; exact hauto)
     intro x
-    rw [hlkm, hmem, hp2]
-    cases add <;> simp [hc.same]
-
-end Casbin.Enf.C04
-
-namespace Casbin.Enf.C04
-open Casbin Casbin.Enf Casbin.Policy Casbin.Policy.C06
+    rw [hlkm, hp2, hp1]
+    simp only [set_get_same]
+    cases add with
+    | false => simp
+    | true =>
+      simp only [↓reduceIte]
+      rw [hc.same]
+      have hold : ∀ r, r ∈ l ↔ r ∈ s.pol.get sec ++ rules := by
+        intro r; have := hmem r; simpa using this
+      rw [LinkOf.congr hold, LinkOf.append]
 
 theorem Coherent.nodup {cfg : Cfg} {s : St} (h : Coherent cfg s) (sec : Sec) : (s.pol.get sec).Nodup := by
   cases sec
@@ -242,10 +301,9 @@ theorem Coherent.nodup {cfg : Cfg} {s : St} (h : Coherent cfg s) (sec : Sec) : (
 theorem Coherent.sizedSec {cfg : Cfg} {s : St} (h : Coherent cfg s) (sec : Sec) (hsec : sec ≠ .p) :
     Sized (cfg.count sec) (s.pol.get sec) := (h.sec sec hsec).sized
 
-theorem not_short (cfg : Cfg) (sec : Sec) (rs : List Rule) (hs : ¬ shortFor cfg sec rs = true)
-    (hle : sec ≠ .p → ∀ r ∈ rs, r.length ≤ cfg.count sec) : sec ≠ .p → Sized (cfg.count sec) rs := by
+theorem not_short (cfg : Cfg) (sec : Sec) (rs : List Rule) (hs : ¬ shortFor cfg sec rs = true) :
+    sec ≠ .p → Sized (cfg.count sec) rs := by
   intro hsec r hr
-  have h1 := hle hsec r hr
   have h2 : ¬ r.length < cfg.count sec := by
     intro hlt
     apply hs
@@ -255,8 +313,8 @@ theorem not_short (cfg : Cfg) (sec : Sec) (rs : List Rule) (hs : ¬ shortFor cfg
     exact List.any_eq_true.mpr ⟨r, hr, by simpa using hlt⟩
   omega
 
-theorem step_add (cfg : Cfg) (s : St) (h : Coherent cfg s) (sec : Sec) (r : Rule)
-    (hr0 : sec ≠ .p → r.length ≤ cfg.count sec) : Coherent cfg (step cfg s (.add sec r)).1 := by
+theorem step_add (cfg : Cfg) (s : St) (h : Coherent cfg s) (sec : Sec) (r : Rule) :
+    Coherent cfg (step cfg s (.add sec r)).1 := by
   simp only [step]
   cases hadd : Policy.add none (s.pol.get sec) r with
   | mk l ok =>
@@ -265,23 +323,22 @@ theorem step_add (cfg : Cfg) (s : St) (h : Coherent cfg s) (sec : Sec) (r : Rule
     | true =>
       by_cases hs : shortFor cfg sec [r] = true
       · simp only [Bool.not_true, Bool.false_eq_true, ↓reduceIte, hs]; exact h
-      · have hr : sec ≠ .p → r.length = cfg.count sec := fun hsec =>
-          not_short cfg sec [r] hs (fun hh x hx => by simp at hx; subst hx; exact hr0 hh) hsec r (by simp)
+      · have hr : sec ≠ .p → Sized (cfg.count sec) [r] := not_short cfg sec [r] hs
         have hl : l = (Policy.add none (s.pol.get sec) r).1 := by rw [hadd]
         obtain ⟨s2, h1, h2⟩ := coherent_change cfg s h sec l true [r] (.addPolicy sec r) (exOnly cfg (.forAddPolicy sec r))
-          (fun hsec x hx => by simp at hx; subst hx; exact hr hsec)
+          hr
           (by rw [hl]; exact add_nodup none _ r (h.nodup sec))
           (fun hsec x hx => by
             rw [hl, add_mem] at hx
             rcases hx with hx | rfl
             · exact h.sizedSec sec hsec x hx
-            · exact hr hsec)
+            · exact hr hsec x (by simp))
           (fun x => by rw [hl, add_mem]; simp)
         simp only [Bool.not_true, Bool.false_eq_true, ↓reduceIte, hs, finish, h1]
         exact h2
 
-theorem step_addMany (cfg : Cfg) (s : St) (h : Coherent cfg s) (sec : Sec) (rs : List Rule)
-    (hr0 : sec ≠ .p → ∀ r ∈ rs, r.length ≤ cfg.count sec) : Coherent cfg (step cfg s (.addMany sec rs)).1 := by
+theorem step_addMany (cfg : Cfg) (s : St) (h : Coherent cfg s) (sec : Sec) (rs : List Rule) :
+    Coherent cfg (step cfg s (.addMany sec rs)).1 := by
   simp only [step]
   cases hadd : Policy.addMany none (s.pol.get sec) rs with
   | mk l ok =>
@@ -290,7 +347,7 @@ theorem step_addMany (cfg : Cfg) (s : St) (h : Coherent cfg s) (sec : Sec) (rs :
     | true =>
       by_cases hs : shortFor cfg sec rs = true
       · simp only [Bool.not_true, Bool.false_eq_true, ↓reduceIte, hs]; exact h
-      · have hr : sec ≠ .p → Sized (cfg.count sec) rs := not_short cfg sec rs hs hr0
+      · have hr : sec ≠ .p → Sized (cfg.count sec) rs := not_short cfg sec rs hs
         have hok : (Policy.addMany none (s.pol.get sec) rs).2 = true := by rw [hadd]
         have hl : l = (Policy.addMany none (s.pol.get sec) rs).1 := by rw [hadd]
         have hsucc := addMany_success none (s.pol.get sec) rs (h.nodup sec) hok
@@ -429,7 +486,7 @@ theorem rfGrouping (cfg : Cfg) (s : St) (h : Coherent cfg s) (sec : Sec) (hsec :
       refine coherent_update cfg s h sec l (s.links.get sec) (fun _ => ⟨?_, hc.nodupL, hlnd, ?_⟩)
         (fun e => absurd e hsec) _ rfl ?_ h.auto
       · intro x hx; exact hc.sized x ((hlmem x).mp hx).1
-      · intro x; rw [hc.same, hlmem]; simp
+      · intro x; rw [hc.same]; exact LinkOf.congr (fun r => by rw [hlmem]; simp) x
       · simp only [hsec, ↓reduceIte]
         cases sec <;> simp_all [Pol.set, Pol.get]
     · obtain ⟨s2, h1, h2⟩ := coherent_change cfg s h sec l false eff (.removeFiltered sec idx vals)
@@ -476,7 +533,8 @@ namespace Casbin.Enf.C04
 open Casbin Casbin.Enf Casbin.Policy Casbin.Policy.C06
 
 theorem rebuildAll_spec (cfg : Cfg) (pol : Pol) (hg : Sized cfg.gCount pol.g) (hg2 : Sized cfg.g2Count pol.g2) :
-    ∃ l, rebuildAll cfg pol = .ok l ∧ l.g.Nodup ∧ l.g2.Nodup ∧ (∀ x, x ∈ l.g ↔ x ∈ pol.g) ∧ (∀ x, x ∈ l.g2 ↔ x ∈ pol.g2) := by
+    ∃ l, rebuildAll cfg pol = .ok l ∧ l.g.Nodup ∧ l.g2.Nodup ∧ (∀ x, x ∈ l.g ↔ LinkOf cfg.gCount pol.g x) ∧
+      (∀ x, x ∈ l.g2 ↔ LinkOf cfg.g2Count pol.g2 x) := by
   obtain ⟨a, ha1, ha2, ha3⟩ := buildLinks_spec cfg.gCount pol.g hg
   obtain ⟨b, hb1, hb2, hb3⟩ := buildLinks_spec cfg.g2Count pol.g2 hg2
   exact ⟨{ p := [], g := a, g2 := b }, by simp [rebuildAll, ha1, hb1], ha2, hb2, ha3, hb3⟩
@@ -505,8 +563,8 @@ theorem coherent_congr (cfg : Cfg) (s s' : St) (h : Coherent cfg s) (h1 : s'.pol
 theorem coherent_step (cfg : Cfg) (s : St) (op : Op) (h : Coherent cfg s) (hop : OpOK cfg s op) :
     Coherent cfg (step cfg s op).1 := by
   cases op with
-  | add sec r => exact step_add cfg s h sec r hop
-  | addMany sec rs => exact step_addMany cfg s h sec rs hop
+  | add sec r => exact step_add cfg s h sec r
+  | addMany sec rs => exact step_addMany cfg s h sec rs
   | remove sec r => exact step_remove cfg s h sec r
   | removeMany sec rs => exact step_removeMany cfg s h sec rs
   | removeFiltered sec idx vals => exact step_removeFiltered cfg s h sec idx vals
@@ -538,8 +596,8 @@ theorem coherent_step (cfg : Cfg) (s : St) (op : Op) (h : Coherent cfg s) (hop :
           (fun _ => updateMany_nodup s.pol.p olds news l true h.p hu) _ hp.1 (by simp [hp.2.1]) (by rw [hp.2.2]; exact h.auto)
   | clearPolicy =>
     simp only [step, h.auto, ↓reduceIte]
-    exact ⟨⟨fun _ hx => by simp at hx, List.nodup_nil, List.nodup_nil, by simp⟩,
-           ⟨fun _ hx => by simp at hx, List.nodup_nil, List.nodup_nil, by simp⟩, List.nodup_nil, by simpa using h.auto⟩
+    exact ⟨⟨fun _ hx => by simp at hx, List.nodup_nil, List.nodup_nil, by simp [LinkOf]⟩,
+           ⟨fun _ hx => by simp at hx, List.nodup_nil, List.nodup_nil, by simp [LinkOf]⟩, List.nodup_nil, by simpa using h.auto⟩
   | buildRoleLinks =>
     simp only [step]
     obtain ⟨l, h1, _⟩ := rebuildAll_spec cfg s.pol h.g.sized h.g2.sized
@@ -682,11 +740,9 @@ theorem observational (cfg : Cfg) (sh : Shape) (s : St) (h : Coherent cfg s) :
   unfold enforceQ
   rw [matcher_congr sh s.links l hg hg2]
 
-/-- revocation takes effect: after a successful removal of a role assignment the link is no longer stored -/
-theorem revocation_effective (cfg : Cfg) (s : St) (h : Coherent cfg s) (sec : Sec) (hsec : sec ≠ .p) (r : Rule) :
-    r ∉ (step cfg s (.remove sec r)).1.links.get sec := by
-  have hc := (coherent_step cfg s (.remove sec r) h trivial).sec sec hsec
-  rw [hc.same]
+/-- after `remove_grouping_policy(r)` - whether it succeeded or not - the rule is not stored -/
+theorem removed_not_stored (cfg : Cfg) (s : St) (h : Coherent cfg s) (sec : Sec) (r : Rule) :
+    r ∉ (step cfg s (.remove sec r)).1.pol.get sec := by
   -- the rule is gone from the policy (C06) whether or not the call succeeded
   simp only [step]
   cases hrem : Policy.remove (s.pol.get sec) r with
@@ -713,6 +769,30 @@ theorem revocation_effective (cfg : Cfg) (s : St) (h : Coherent cfg s) (sec : Se
         · split at hrl
           · cases hrl
           · cases hrl; simp only []; rw [hp.1]; simpa [set_get_same] using hnot
+
+
+/-- **revocation takes effect**: after the removal of a role assignment its link is gone - unless another assignment
+    that is still stored has the very same link (rules that differ only beyond the role definition, F28) -/
+theorem revocation_effective (cfg : Cfg) (s : St) (h : Coherent cfg s) (sec : Sec) (hsec : sec ≠ .p) (r : Rule) :
+    r.take (cfg.count sec) ∈ (step cfg s (.remove sec r)).1.links.get sec →
+      ∃ o ∈ (step cfg s (.remove sec r)).1.pol.get sec, o ≠ r ∧ o.take (cfg.count sec) = r.take (cfg.count sec) := by
+  intro hin
+  have hc := (coherent_step cfg s (.remove sec r) h trivial).sec sec hsec
+  obtain ⟨o, ho, he⟩ := (hc.same _).mp hin
+  exact ⟨o, ho, fun e => removed_not_stored cfg s h sec r (e ▸ ho), he⟩
+
+/-- in particular, when rules have exactly the role definition's size the link of a removed assignment is gone -/
+theorem revocation_effective_exact (cfg : Cfg) (s : St) (h : Coherent cfg s) (sec : Sec) (hsec : sec ≠ .p) (r : Rule)
+    (hex : ∀ o ∈ (step cfg s (.remove sec r)).1.pol.get sec, o.length = cfg.count sec) (hr : r.length = cfg.count sec) :
+    r ∉ (step cfg s (.remove sec r)).1.links.get sec := by
+  intro hin
+  have hin' : r.take (cfg.count sec) ∈ (step cfg s (.remove sec r)).1.links.get sec := by
+    rw [← hr, List.take_length]; exact hin
+  obtain ⟨o, ho, hne, he⟩ := revocation_effective cfg s h sec hsec r hin'
+  apply hne
+  have h1 : o.take (cfg.count sec) = o := by rw [← hex o ho]; exact List.take_length
+  have h2 : r.take (cfg.count sec) = r := by rw [← hr]; exact List.take_length
+  rw [h1, h2] at he; exact he
 
 /-- a call that reports failure or "already present" leaves links (and everything else) untouched -/
 theorem rejected_call_no_link (cfg : Cfg) (s : St) (sec : Sec) (r : Rule) (rs : List Rule) :
@@ -779,10 +859,23 @@ example :
 
 /-- a concrete coherent state (RBAC model with two assignments), reached through `coherent_init` -/
 example : PolOK { gCount := 2 } { p := [["admin", "data1", "read"]], g := [["alice", "admin"], ["bob", "admin"]] } :=
-  ⟨by decide, by decide, by decide, by intro r hr; simp at hr; rcases hr with rfl | rfl <;> rfl, by intro r hr; simp at hr⟩
+  ⟨by decide, by decide, by decide, by intro r hr; simp at hr; rcases hr with rfl | rfl <;> exact Nat.le_refl _, by intro r hr; simp at hr⟩
 
 example : RunOK { gCount := 2 } {} [.add .g ["alice", "admin"], .add .g ["alice", "admin"],
     .addMany .g [["alice", "admin"], ["bob", "admin"]], .remove .g ["alice", "admin"], .clearPolicy] := by
   simp [RunOK, OpOK, Cfg.count, Sized]
+
+/-- over-long and short grouping rules are inside the theorem: the state reached by this history - two rules that differ
+    only beyond the role definition, a too short one (refused), one of the two removed - is coherent, and the shared
+    link is still there -/
+example :
+    let ops : List Op := [.addMany .g [["alice", "admin", "x"], ["alice", "admin", "y"]], .add .g ["bob"],
+      .remove .g ["alice", "admin", "x"]]
+    Coherent { gCount := 2 } (run { gCount := 2 } {} ops) ∧
+    (run { gCount := 2 } {} ops).links.g = [["alice", "admin"]] ∧
+    (run { gCount := 2 } {} ops).pol.g = [["alice", "admin", "y"]] := by
+  refine ⟨coherent_run _ _ _ ?_ (by simp [RunOK, OpOK]), by decide, by decide⟩
+  exact ⟨⟨fun _ hx => by simp at hx, List.nodup_nil, List.nodup_nil, by simp [LinkOf]⟩,
+         ⟨fun _ hx => by simp at hx, List.nodup_nil, List.nodup_nil, by simp [LinkOf]⟩, List.nodup_nil, rfl⟩
 
 end Casbin.Enf.C04
